@@ -45,6 +45,10 @@ def main(argv):
     prog.config = "A"
     chk.analysed["configs"].append("A: cargo check --workspace (tough with feature http)")
     try:
+        from .rules import common as _common
+        pw = _common.discover_parse_wrappers(prog)
+        if pw:
+            chk.analysed["configs"].append("parse wrappers treated as parse sites: %s" % ", ".join(pw))
         mod.run(chk, prog)
         from .rules import errors
         errors.run(chk, prog, prop)
